@@ -49,6 +49,9 @@ def layouts(tier, rng):
         for order in ([list(range(len(mols))), list(reversed(range(len(mols))))]):
             for cv in ([1], [0, 0.3]):
                 fixed.append(dict(mols=mols, order=order, extra_pad=0, pad_coord=0.0, params=dict(scf_converger=cv, UHF=True, scf_eps=1.0e-10)))
+    for mols in (["h2o", "ch4"], ["nh3", "h2", "h2co"]):
+        for order in ([list(range(len(mols))), list(reversed(range(len(mols))))]):
+            fixed.append(dict(mols=mols, order=order, extra_pad=1, pad_coord=0.0, params=dict(scf_converger=[1], dispersion=True, scf_eps=1.0e-10)))
     out += fixed
     # finite electronic temperature (Krylov XL-BOMD branch) and excited states in mixed batches
     for mols in (["h2o", "h2co"], ["oh-", "h2co"], ["nh3", "h2o"]):
